@@ -1,6 +1,6 @@
 #!/bin/bash
 # usage: tools/run_all.sh quick|thorough   — runs every claimed check on /repo, one line per property
-cd /verif
+cd "$(dirname "$(readlink -f "$0")")/.."
 TIER=${1:-quick}
 for p in $(python3 -c "import json;print(' '.join(c['property_id'] for c in json.load(open('MANIFEST.json'))['checks']))"); do
   s=$(date +%s); out=$(./check $p $TIER 2>&1); rc=$?; e=$(date +%s)
